@@ -30,7 +30,7 @@ LINK_EXCL = """[ exclusions ]
 @condition("C14.exclusions",
            anchors=["polyply.src.map_to_molecule:tag_exclusions", "polyply.src.apply_links:expand_excl", "polyply.src.graph_utils:neighborhood",
                     "polyply.src.map_to_molecule:MapToMolecule.run_molecule", "polyply.src.apply_links:ApplyLinks.run_molecule"],
-           rejects=(), selector_only=True, must_cover=["mixed", "uniform", "explicit block exclusion", "link exclusion", "three distances", "ring block", "explicit link", "unused block with another distance"],
+           rejects=(), selector_only=True, must_cover=["mixed", "uniform", "explicit block exclusion", "link exclusion", "three distances", "ring block", "explicit link", "unused block with another distance", "exclusion line with several partners"],
            stubs=["apply_links.tqdm -> plain iteration"],
            outside=["residue graphs / blocks larger than the bound", "exclusion distances above 4"],
            bounds={"quick": dict(nmax=3, excl=[0, 1, 3], sizes=[3, "ring"]), "thorough": dict(nmax=4, excl=[0, 2, 4], sizes=[3, "ring"])},
@@ -47,15 +47,16 @@ def exclusions(sx, B):
     used = sorted(set(names))
     nrexcl = {nm: sx.sel("nrexcl_%s" % nm, B["excl"]) for nm in used}
     size = {nm: sx.sel("atoms_%s" % nm, B["sizes"]) for nm in used}
-    blk_excl = sx.sel("block_exclusion", [False, True])
+    # (only where it makes a difference: a chain-shaped block A of three atoms is part of the molecule)
+    blk_excl = sx.sel("block_exclusion", [False, True, "line of three"]) if ("A" in used and size["A"] == 3) else False
     link_excl = sx.sel("link_exclusion", [False, True])
     specs = {nm: (ring_block(nm, nrexcl=nrexcl[nm]) if size[nm] == "ring" else
-                  simple_block(nm, size[nm], nrexcl=nrexcl[nm], ifdef=False, extra_excl=(blk_excl and nm == "A"))) for nm in used}
+                  simple_block(nm, size[nm], nrexcl=nrexcl[nm], ifdef=False, extra_excl=(blk_excl if nm == "A" else False))) for nm in used}
     if any(v == "ring" for v in size.values()):
         sx.cover("ring block")
     explicit = sx.sel("explicit_link", [False, True])
     texts = [("ff", block_text_ff(specs[nm])) for nm in used]
-    if sx.sel("unused_block_in_library", [False, True]):
+    if not blk_excl and not link_excl and sx.sel("unused_block_in_library", [False, True]):
         # a block that is loaded with the force field but not part of the molecule, with another exclusion distance
         texts.insert(0, ("ff", block_text_ff(simple_block("U", 2, nrexcl=min(B["excl"]), ifdef=False))))
         sx.cover("unused block with another distance")
@@ -102,7 +103,12 @@ def exclusions(sx, B):
     if blk_excl:
         for rid, atoms in res_atoms.items():
             if mol.nodes[atoms[0]]["resname"] == "A" and len(atoms) >= 3 and size["A"] != "ring":
-                explicit_expected.add(frozenset((atoms[0], atoms[2])))
+                if blk_excl == "line of three":
+                    explicit_expected.add(frozenset((atoms[1], atoms[0])))
+                    explicit_expected.add(frozenset((atoms[1], atoms[2])))
+                    sx.cover("exclusion line with several partners")
+                else:
+                    explicit_expected.add(frozenset((atoms[0], atoms[2])))
                 sx.cover("explicit block exclusion")
     if link_excl:
         for u, v in GRAPHS[n][shape]:
